@@ -792,4 +792,11 @@ func init() {
 		rule: "model-based registry histories: open(key) with keys from a small colliding pool incl. nil and no key function, close from the handler side / by Stop / by context / by carrier break, RPCs routed through AsChannel or KeyAsChannel(k) (with bursts), Ready, WaitForReady with virtual-time timeouts, AllReverseTunnels, executed one at a time to quiescence against the real handler and against a list model in lock-step; yield points between the two registration / deregistration steps armed; non-trivial = at least two tunnels share a key and a close happened between routed RPCs"})
 }
 
+func init() {
+	register(&checkDef{prop: "C17", parts: []part{
+		{name: "c17", gen: genC17, monitors: []Monitor{monC17}, labels: commonLabels, nontrivial: ntC17, quick: 600, thorough: 20000},
+	},
+		rule: "generated opening metadata / peer / context value per tunnel, {forward, reverse with 1-4 tunnels behind one handler, nested in forward, nested in reverse}, 2-6 concurrent RPCs routed round-robin whose handlers and callers call the four accessors, mutate what they get (new key, in-place edit of value slices, delete) and call them again; oracle: equality with what the opener sent / the carrying channel (==) / the RPC's own request metadata, and invisibility of every mutation to every later accessor call; non-trivial = at least two tunnels or a nested tunnel, and at least two handler invocations"})
+}
+
 var _ = strings.Join
